@@ -22,6 +22,11 @@ claimed["C10"] = dict(
    note="Trusted: govc and the SMT solvers; assumed contracts: sort.Sort (calls Len, then only Less/Swap in range; no inversion on return), go/types and go/constant accessors as pure functions (Scope.Names/Lookup, Const.Val/Type/Exported, constant.Int64Val), Go map semantics; fetchConstComment (syntax-tree navigation) is assumed to be a function of the constant returning its trailing comment; two finite-set counting lemmas (a subset of {0..m} with m+1 elements is {0..m}; {0..m} has m+1 elements) are axioms of the background theory; the last step 'sorted + distinct + downward closed => k-th exported value is k' is arithmetic not re-proved by SMT. After loop 2 of fetchPkgEnums the member-list facts are carried only through setIsIota's own contract (members permuted), not re-proved as a postcondition. The walk over imported packages is under C07/C11.",
    ref="DESIGN §4 C10")
 
+claimed["C20"] = dict(
+   text="Deductive proof by the lock-invariant rule (sequential proof rule of concurrent separation logic): the four cached probe results and their pointees are declared guarded by Formatters.lock; every read or write of them in the package generates an obligation that the mutex is held, Lock/Unlock are balanced on every path (deferred Unlock included) and never re-entered, guarded pointers are write-once (stored only while nil, only non-nil: a cached result is never dropped). With ghost counters on exec.Command(argv).Run(): each hasX probes exactly when no result was cached at lock time and returns the cached value; FormatFile runs the requested formatter exactly once when its tool is present and returns that run's error, starts no process and returns nil when the tool is absent or the format unknown, and probes each tool at most once per request. Given the soundness of the rule this holds for every interleaving and any number of goroutines.",
+   note="Trusted: govc and the SMT solvers; the meta-theorem that lock-invariant reasoning is sound for sync.Mutex under the Go memory model (data-race freedom of guarded fields follows from 'accessed only while holding the lock'); assumed contract of os/exec: exec.Command(argv).Run() starts the process once and returns an arbitrary error. That cmd/gomacro.go:saveOutputs shares only the Formatters value between its goroutines is read from the source, not proved. The bounded harness (stub tools, 24 concurrent requests, go test -race) is the replay/stand-in only.",
+   ref="DESIGN §4 C20")
+
 not_applicable = {
  "C01": "type-checking of emitted Go text for all inputs needs a typing judgement over Sprintf templates; no contract on a Go function returning a string can express it (DESIGN §5)",
  "C02": "round trip and wire bytes are run-time behaviour of the emitted wrappers under encoding/json; a contract on the generator can only restate its templates (DESIGN §5)",
